@@ -267,7 +267,7 @@ func (s *streamPool) addStream(drpcStream drpc.Stream, queueSize int, tags ...st
 		pool:     s,
 		streamId: streamId,
 		l:        log.With(zap.String("peerId", peerId), zap.Uint32("streamId", streamId)),
-		tags:     tags,
+		tags:     slices.Clone(tags), // the pool filters st.tags in place; never alias the caller's slice
 		stats:    newStreamStat(peerId),
 	}
 	st.queue = mb.New[drpc.Message](queueSize)
